@@ -38,6 +38,8 @@ def gen_o2o(rng, n=None):
             c = rng.randint(0x21, 0x7e)
         elif r < 0.7 and chars:
             c = rng.choice(sorted(chars)) + HASHNUM * rng.randint(1, 3)      # colliding bucket
+        elif r < 0.78:
+            c = rng.randint(0x2801, 0x28ff)     # a character of the Unicode braille block as TEXT (its cell is another pattern)
         else:
             c = rng.randint(0xa0, 0xfffe)
         if c in (0x20, 0x5c, 0x23) or c > 0xfffe:
@@ -116,7 +118,7 @@ def run(tier):
         if k:
             late, rules = rules[-k:], rules[:-k]
         txt = "\n".join(r.text() for r in rules) + "\n"
-        tn = "o%d.ctb" % i
+        tn = "o%d" % i          # (no extension: o1 is a prefix of o10..o19, which a sloppy cache lookup confuses)
         setup = ["HOOK trace 1", "TBL %s %s" % (tn, common.hexbytes(txt))]
         ops = ["ADD %s %s" % (tn, common.hexbytes(r.text())) for r in late]
         ops.append("DUMP %s" % tn)
@@ -286,6 +288,11 @@ def run(tier):
             continue
         tb = twin(rng, ta)
         an, bn = "pa%d.ctb" % i, "pb%d.ctb" % i
+        coexist = (i % 3 == 2)
+        if coexist:
+            # both tables stay loaded, and the name of the second is a proper prefix of the first one's: each must answer
+            # from its own table (a cache lookup comparing only a prefix of the name hands out the other one)
+            an, bn = "pq%dx" % i, "pq%d" % i
         cells = sorted(set(ta.charcell.values()) - {0})
         rng.shuffle(cells)
         chars = [c for c in ta.chars() if c != 0x20]
@@ -294,6 +301,8 @@ def run(tier):
                "D2C %s 0 %s" % (bn, common.wide([0x8000 | cells[-1]])), "C2D %s 0 %s" % (bn, common.wide([chars[-1]])),
                "FWD %s 0 %d - 12 %s - -" % (bn, len(chars), common.wide(chars[-1:] + chars[:-1])),
                "BWD %s 0 %d - 12 %s - -" % (bn, len(chars), common.wide(chars[-1:] + chars[:-1])), "FREE"]
+        if coexist:
+            ops = [o for o in ops[:-1] if o != "FREE"] + ["C2D %s 0 %s" % (an, common.wide(chars[:3])), "FREE"]
         pair_cases.append(common.Case("c11-p%d" % i, ["TBL %s %s" % (an, common.hexbytes(ta.text())), "TBL %s %s" % (bn, common.hexbytes(tb.text()))],
                                       ops, {"a": ta, "b": tb, "an": an}))
     common.run_cases(exe, pair_cases, batch=1, timeout=120, env=common.ASAN_REUSE)
